@@ -2,6 +2,7 @@ package gerror
 
 import (
 	"fmt"
+	"reflect"
 )
 
 // GError is a base error type that can be extended and turned into a factory.
@@ -205,7 +206,7 @@ func (e *GError) Is(err error) bool {
 	}
 	if e == err ||
 		e.factoryRef != nil && e.factoryRef == err ||
-		e.srcError != nil && e.srcError == err {
+		e.srcError != nil && reflect.TypeOf(e.srcError).Comparable() && e.srcError == err {
 		return true
 	}
 	gerr, ok := err.(Error)
